@@ -51,6 +51,16 @@ CHECKS = {
         "POSIX path semantics ('\\' is not a separator on this platform); no symlink members; absolute names point into the scratch root only.",
         "DESIGN.md section 2 C15",
     ),
+    "C14": (
+        "exploration",
+        "Hypothesis-generated page/revision/redirect/image sets and write histories through the real FsOutput -> zip_dir -> "
+        "wiki.make_wiki path; byte/text round-trip oracle under every drawn equivalent spelling; adversarial escape-twin titles for injectivity",
+        "Each generated archive is really written, zipped, re-opened and read back by revision id, title, spelling, redirect and image "
+        "spelling; expected values come from the generated model (newest revid per title), not from the reader. Sampled.",
+        "Canonical titles are the fixed point of the site's own normalisation (C12 covers that); separator-containing texts excluded per the "
+        "quantifier; one open known finding (text starting with the separator tail) is excluded by construction and replayed as witness.",
+        "DESIGN.md section 2 C14",
+    ),
 }
 
 NOT_YET = {}
